@@ -110,6 +110,12 @@ func apply(m omap.Map[int, int], o op) bool {
 
 func (s *inst) Apply(o op, check bool) *mc.Failure {
 	cp := s.m // copies of a Map share contents: mutate through the copy
+	// iterators obtained before the edit: the documented way to go on after an
+	// edit is to Seek them again
+	var oldFirst, oldLast, oldSeek *omap.Iter[int, int]
+	if check {
+		oldFirst, oldLast, oldSeek = s.m.First(), s.m.Last(), s.m.Seek(1)
+	}
 	got := apply(cp, o)
 	_, present := s.ref[o.A]
 	want := false
@@ -141,7 +147,47 @@ func (s *inst) Apply(o op, check bool) *mc.Failure {
 	if f := s.observe(s.m); f != nil {
 		return f
 	}
+	if f := s.iteratorsAcross(oldFirst, oldLast, oldSeek, o); f != nil {
+		return f
+	}
 	return s.deleteLoops()
+}
+
+// iteratorsAcross re-anchors iterators that were obtained before the edit,
+// and checks that two iterators alive at the same time do not disturb each other.
+func (s *inst) iteratorsAcross(oldFirst, oldLast, oldSeek *omap.Iter[int, int], o op) *mc.Failure {
+	es := s.sorted()
+	n := len(es)
+	for x := -1; x <= s.c.Keys; x++ {
+		i := s.seekIndex(es, x)
+		for name, it := range map[string]*omap.Iter[int, int]{"First": oldFirst, "Last": oldLast, "Seek(1)": oldSeek} {
+			if it == nil {
+				continue
+			}
+			it.Seek(x)
+			if it.IsValid() != (i < n) || (i < n && (it.Key() != es[i].k || it.Value() != es[i].v)) {
+				return mc.Failf(0, "an iterator from %s() taken before %v and re-anchored with Seek(%d) afterwards: valid=%v key=%d, want index %d of %v", name, o, x, it.IsValid(), it.Key(), i, es)
+			}
+		}
+	}
+	// two live iterators: the first is used after the second was created
+	for x := -1; x <= s.c.Keys; x++ {
+		for y := -1; y <= s.c.Keys; y++ {
+			a := s.m.Seek(x)
+			b := s.m.Seek(y)
+			i, j := s.seekIndex(es, x), s.seekIndex(es, y)
+			if a.IsValid() != (i < n) || (i < n && a.Key() != es[i].k) {
+				return mc.Failf(0, "Seek(%d) is at key %d (valid=%v) after a second iterator was created with Seek(%d); want index %d of %v", x, a.Key(), a.IsValid(), y, i, es)
+			}
+			if got, ok := walk(a, true, 2*n+4); !ok || !eqKV(got, es[i:]) {
+				return mc.Failf(0, "the walk from Seek(%d) gives %v after a second iterator was created with Seek(%d); want %v", x, got, y, es[i:])
+			}
+			if b.IsValid() != (j < n) || (j < n && b.Key() != es[j].k) {
+				return mc.Failf(0, "Seek(%d) is at key %d (valid=%v) after another iterator was walked to its end; want index %d of %v", y, b.Key(), b.IsValid(), j, es)
+			}
+		}
+	}
+	return nil
 }
 
 // walk collects entries by repeatedly calling step until the iterator is invalid.
